@@ -7,6 +7,7 @@ From Verif Require Import Base.PyValue Model.Eval Model.Order Model.Exec Model.S
 From Coq Require String.
 From Verif Require Model.PyMini Model.PrimsApi Model.PrimsCompiler Model.PrimsSubquery Gen.SrcSubquery
      Proofs.SrcSubquery Model.Compile.
+From Verif Require Model.PrimsSelect Gen.SrcSelect Proofs.SrcSelect.      (* bld-compiler3: Compiler._select *)
 Open Scope nat_scope.
 
 (* FROM (subquery): the outer query sees exactly the subquery's visible result rows *)
@@ -176,3 +177,52 @@ Proof.
   intros [|[|[|[|j]]]] t n H Hn; cbn in H; try discriminate; injection H as <-; injection Hn as <-;
     eexists; split; reflexivity.
 Qed.
+
+(* ---- bld-compiler3: a nested SELECT does not leave its table behind.  Compiler._select (Gen/SrcSelect.v, regenerated
+   from the live source on every run), with every call `x = self.m(..)` of a method that may assign self.table read as
+   `self.table, x = self.m(self.table, ..)` (translator rule K12; the threaded state is recomputed from the live class
+   and is exactly ["table"]).  For EVERY table t1 .. t5 the sub-compilations (FROM, targets, WHERE, GROUP BY, ORDER BY)
+   leave behind and every result they return: whenever _select returns, the receiver's attributes are what they were
+   on entry - self.table is the table of the enclosing query again.  (A sub-compilation that raises ends the whole
+   compilation: Compiler objects are not reused after an error.) *)
+Module SS := Verif.Proofs.SrcSelect.
+Module PS := Verif.Model.PrimsSelect.
+Theorem C08_source_table_restored :
+  forall (call_ref : nat -> list pv -> pv) (tbl : nat -> Compile.cnode) (kids : nat -> list nat)
+         (mro : string -> list string) (msg : string -> list pv -> pv) (updatable : pv -> bool)
+         (upd : pv -> pv -> pv -> pv -> pv) (t0 t1 t2 t3 t4 t5 tg fc wc gb ob pb lim dist : pv) (kF kT kC kG kO kP : nat)
+         (rest : env) (rfrom : Compile.result (option nat) Compile.cerr) (rtargets : Compile.result (list ptarget) Compile.cerr)
+         (rwhere : Compile.result (option nat) Compile.cerr) (fgroup : list ptarget -> Compile.result SS.gres Compile.cerr)
+         (forder : list ptarget -> Compile.result SS.ores Compile.cerr)
+         (fpivot : list ptarget -> option (list nat) -> Compile.result (option (nat * nat)) Compile.cerr)
+         (and_id : nat -> nat -> nat),
+  call_ref kF [t0; fc] = SS.enc_res (fun cf => PTuple [t1; popt nref cf]) rfrom ->
+  call_ref kT [t1; tg] = SS.enc_res (fun pts => PTuple [t2; PS.enc_targets pts]) rtargets ->
+  call_ref kC [t2; wc] = SS.enc_res (fun ow => PTuple [t3; popt nref ow]) rwhere ->
+  (forall i, call_ref SS.ka [nref i] = PBool (Compile.has_agg (tbl i))) ->
+  (forall f w, call_ref SS.kand [PList [nref f; nref w]] = nref (and_id f w)) ->
+  (forall pts, call_ref kG [t3; gb; PS.enc_targets pts] =
+     SS.enc_res (fun r : SS.gres => match r with (new, gi, hi) =>
+                   PTuple [t4; PTuple [PS.enc_targets new; popt PS.enc_nats gi; popt PS.enc_nat hi]] end) (fgroup pts)) ->
+  (forall pts, call_ref kO [t4; ob; PS.enc_targets pts] =
+     SS.enc_res (fun r : SS.ores => match r with (new, os) =>
+                   PTuple [t5; PTuple [PS.enc_targets new; popt PS.enc_ospec os]] end) (forder pts)) ->
+  (forall pts gi, call_ref kP [pb; PS.enc_targets pts; popt PS.enc_nats gi] =
+     SS.enc_res (popt (fun p : nat * nat => PS.enc_nats [fst p; snd p])) (fpivot pts gi)) ->
+  forall (flds' : env) (v : pv),
+  call_method call_ref (PS.prim_select tbl kids mro msg updatable upd) Verif.Gen.SrcSelect.compile_select
+    (SS.flds kF kT kC kG kO kP rest t0) [SS.SEL tg fc wc gb ob pb lim dist] = PyMini.Ok (flds', v) ->
+  flds' = SS.flds kF kT kC kG kO kP rest t0 /\ lookup "table" flds' = Some t0.
+Proof. exact SS.table_restored. Qed.
+Print Assumptions C08_source_table_restored.
+
+(* the hypotheses are satisfiable and the conclusion is not vacuous: on the oracle of SS.ex_call (FROM leaves the table
+   "sub", the other sub-compilations leave None) the translated _select returns and the enclosing table "outer" is back *)
+Example C08_source_table_restored_example :
+  exists v,
+    call_method SS.ex_call (PS.prim_select SS.ex_tbl (fun _ => []) (fun _ => []) (fun _ _ => PNone) (fun _ => false)
+                                           (fun _ _ _ _ => PNone))
+      Verif.Gen.SrcSelect.compile_select (SS.flds 10 11 12 13 14 15 [] (PStr "outer"))
+      [SS.SEL PNone PNone PNone PNone PNone PNone PNone PNone]
+    = PyMini.Ok (SS.flds 10 11 12 13 14 15 [] (PStr "outer"), v).
+Proof. eexists. vm_compute. reflexivity. Qed.
